@@ -7,9 +7,7 @@ Check (C17_export_is_intended_tree : forall st c a av j,
   get_ann st a = Some av ->
   Known_C17_config_chars c = false ->
   Known_C17_nonfinite av = false ->
-  Known_C17_nested_unexportable av = false ->
   forallb (fun d => value_dates_plain (d_val d)) (a_data av) = true ->
-  ranges_ok (a_target av) = true ->
   export_ast st c a = Some j ->
   exists s, to_webannotation st c a = Some s /\ parse_json s = Some j /\ is_object j = true).
 Check (C17_targets : forall st c a av j,
@@ -34,6 +32,5 @@ Print Assumptions C17_numbers_wellformed.
 Print Assumptions C17_no_duplicates_no_loss.
 Print Assumptions Known_C17_nonfinite_witness.
 Print Assumptions Known_C17_config_chars_witness.
-Print Assumptions Known_C17_nested_unexportable_witness.
 Print Assumptions Known_C17_duplicate_names_witness.
 Print Assumptions Known_C17_anonymous_target_witness.
